@@ -91,7 +91,11 @@ def judge(canon_src, canon, text, got, stats):
 def prop(case):
     canon = outcome(case["canonical"])
     got = outcome(case["text"])
-    return judge(case["canonical"], canon, case["text"], got, {})
+    f = judge(case["canonical"], canon, case["text"], got, {})
+    if f is not None and case.get("name"):
+        f.signature = "C14|parentheses-around-a-juxtaposed-body|" + \
+            case["name"]
+    return f
 
 
 def part_programs(part, n, variants):
@@ -197,13 +201,48 @@ def _payload(t):
     return None
 
 
+# Places where the grammar puts two expressions side by side (a loop or a
+# handler whose body is not a do-block): parentheses around the second one.
+JUXTAPOSED = [
+    ("for-body", "def l = [1, 2, 3]; def r = []; for x in l append(r, x); r",
+     "def l = [1, 2, 3]; def r = []; for x in l (append(r, x)); r"),
+    ("for-body-after-call",
+     "def r = []; for x in range(3) append(r, x); r",
+     "def r = []; for x in range(3) (append(r, x)); r"),
+    ("catch-handler", "def e = 'E1'; do error 'E1' catch e 'caught' end",
+     "def e = 'E1'; do error 'E1' catch e ('caught') end"),
+    ("while-body", "def i = 0; while i < 3 i += 1; i",
+     "def i = 0; while i < 3 (i += 1); i"),
+    ("if-then", "def a = [1]; if TRUE then a else 2",
+     "def a = [1]; if TRUE then (a) else (2)"),
+    ("lambda-body", "def f = fn(x) x; f(1)", "def f = fn(x) (x); f(1)"),
+]
+
+
+def part_juxtaposed(part):
+    for name, canonical, text in JUXTAPOSED:
+        part.count()
+        part.distinct()
+        part.cls("juxtaposed:" + name, text)
+        canon = outcome(canonical)
+        got = outcome(text)
+        f = judge(canonical, canon, text, got, {})
+        if f is not None:
+            f.signature = "C14|parentheses-around-a-juxtaposed-body|" + name
+        part.collect(f, {"kind": "layout", "canonical": canonical,
+                         "text": text, "name": name})
+    part.exhaustive = True
+
+
 def parts(tier, seed):
     if tier == "quick":
         ps = [(f"programs-{i}", part_programs, {"n": 300, "variants": 10})
               for i in range(12)]
         ps += [("snippets", part_suite_sources, {"variants": 40})]
+        ps += [("juxtaposed", part_juxtaposed, {})]
     else:
         ps = [(f"programs-{i}", part_programs, {"n": 4000, "variants": 20})
               for i in range(12)]
         ps += [("snippets", part_suite_sources, {"variants": 2000})]
+        ps += [("juxtaposed", part_juxtaposed, {})]
     return ps
